@@ -84,6 +84,16 @@ Proof.
 Qed.
 Print Assumptions C09_reorder_keeps_cache_partial.
 
+(* re-running reorder on an edge that has just been reordered changes nothing (so the additional reorder calls
+   of delete_face_core / delete_cell_core / enable_*_bottom_up_incidences cannot destroy an established order) *)
+Theorem C09_reorder_idempotent_partial : forall s e,
+  edge_cache_exact s e -> single_fan s e ->
+  let s' := reorder_incident_halffaces e s in
+  hfs_at (reorder_incident_halffaces e s') (2 * e) = hfs_at s' (2 * e) /\
+  hfs_at (reorder_incident_halffaces e s') (2 * e + 1) = hfs_at s' (2 * e + 1).
+Proof. exact reorder_idempotent. Qed.
+Print Assumptions C09_reorder_idempotent_partial.
+
 (* sigma as a function: the forward link is "sigma s h x = Some y" *)
 Theorem C09_link_is_sigma : forall s h x y,
   fwd_link s h x y <-> (hf_is_open s x = false /\ sigma s h x = Some y).
